@@ -273,3 +273,14 @@ if "source_null_match" not in PROPS["C19"]["theorems"]:
         "table Rust form -> Lean term printed in the header of lean/CC/Gen/NullSrc.lean (debug_assert* = guard in profile "
         "debug only, slice/array index = guard in every profile, << >> - overflow-checked in debug / masked or wrapping in "
         "release, closures and function paths passed to map/zipmap inlined), the vocabulary CC.Null.Vocab"]
+# ---- round 6: the x86 backend of ppv-lite86 (hand transcription lean/CC/Simd/Impl/X86*.lean) is tied to the source by
+#      tools/inventory_simdx86.py -> lean/CC/Gen/SimdX86Src.lean, obligations lean/CC/Simd/SrcX86.lean
+for _pid in ("C12", "C13"):
+    if "source_x86_match" not in PROPS[_pid]["theorems"]:
+        PROPS[_pid]["theorems"] = list(PROPS[_pid]["theorems"]) + ["source_x86_match"]
+    _te = ("tools/inventory_simdx86.py (translator for ppv-lite86/src/x86_64/sse2.rs, mod.rs): its reading table (intrinsic name -> CC.X86 "
+           "model, wrapper structs / same-size union views / transmute = identity on the BitVec carrier, x2 / x4 = concatenation with "
+           "element 0 low, impl resolution by header matching under the S3 / S4 flags, NI = NoNI), printed in the header of "
+           "lean/CC/Gen/SimdX86Src.lean")
+    if _te not in PROPS[_pid].get("trusted_extra", []):
+        PROPS[_pid]["trusted_extra"] = list(PROPS[_pid].get("trusted_extra", [])) + [_te]
